@@ -431,12 +431,38 @@ def check_floor(el, feed, call, res, client):
                     cnt[f"floor_binding_unit_{kind}"] = cnt.get(f"floor_binding_unit_{kind}", 0) + 1
     if est == "bootstrap":
         return out, cnt
+    fcs, dup = ref.feed_counts(feed)
     for tname, tdf in agg_tables(res).items():
         keys = ref.table_keys(tdf)
         groups, _ = ref.group_units(urows, keymap, keys)
         level = tname
+        # the floor is what the FEED has counted for the group (every feed row attributable to it, whether or not the
+        # unit made it into the unit table), not only what the table itself lists as counted
+        feed_tot = {}
+        if "county_classification" not in keys and not dup:
+            for f, fc in fcs.items():
+                km = keymap.get(f)
+                if km is None:
+                    continue
+                fk = tuple(km[c] for c in keys)
+                if any(x is None for x in fk):
+                    continue
+                d_ = feed_tot.setdefault(fk, {})
+                for e in estimands:
+                    d_[e] = d_.get(e, 0) + feed_value(fc, e)
         for r in ref.rows(tdf):
             k = tuple(r[c] for c in keys)
+            if k in feed_tot:
+                cnt["groups_checked_against_feed"] = cnt.get("groups_checked_against_feed", 0) + 1
+                for e in estimands:
+                    for c in [f"pred_{e}"] + [f"{b}_{a}_{e}" for a in alphas for b in ("lower", "upper")]:
+                        v = r.get(c)
+                        if v is not None and ref.whole(v) and v < feed_tot[k][e]:
+                            kind = "pred" if c.startswith("pred") else c.split("_")[0]
+                            out.append(V(f"C03/{est}/{level}/{kind}-below-votes-counted-in-feed", f"{tname}{k} {c}={v} < "
+                                         f"{feed_tot[k][e]} votes the feed has counted for this group (the table lists "
+                                         f"{r.get('results_' + e)})", group=k))
+                            break
             us = groups.get(k)
             if us is None:
                 continue
